@@ -64,21 +64,28 @@ def copy_imagefolder_from_global_to_local(global_path, local_path, relative_path
             else:
                 # incomplete copy -> delete and copy again
                 log(log_fn, f"found incomplete automatic copy in '{dst_path}' -> deleting folder")
-                shutil.rmtree(dst_path)
+                # (start_copy_file is kept while deleting: an interrupted deletion is still recognized as incomplete copy)
+                for item in os.listdir(dst_path):
+                    if item == start_copy_file.name:
+                        continue
+                    if (dst_path / item).is_dir() and not (dst_path / item).is_symlink():
+                        shutil.rmtree(dst_path / item)
+                    else:
+                        (dst_path / item).unlink()
                 was_deleted = True
         else:
             log(log_fn, f"using manually copied dataset '{dst_path}'")
             return CopyImageFolderResult(was_copied=False, was_deleted=False, was_zip=False, was_zip_classwise=False)
-
-    # create dst_path together with its start_copy_file: both are staged in a sibling folder which is renamed to dst_path
-    # (if dst_path would exist without start_copy_file after an interruption it would be mistaken for a manual copy)
-    tmp_path = dst_path.with_name(dst_path.name + ".autocopy_tmp")
-    if tmp_path.exists():
-        shutil.rmtree(tmp_path)
-    tmp_path.mkdir(parents=True)
-    with open(tmp_path / start_copy_file.name, "w") as f:
-        f.write("this file indicates that an attempt to copy the dataset automatically was started")
-    os.rename(tmp_path, dst_path)
+    else:
+        # create dst_path together with its start_copy_file: both are staged in a sibling folder which is renamed to dst_path
+        # (if dst_path would exist without start_copy_file after an interruption it would be mistaken for a manual copy)
+        tmp_path = dst_path.with_name(dst_path.name + ".autocopy_tmp")
+        if tmp_path.exists():
+            shutil.rmtree(tmp_path)
+        tmp_path.mkdir(parents=True)
+        with open(tmp_path / start_copy_file.name, "w") as f:
+            f.write("this file indicates that an attempt to copy the dataset automatically was started")
+        os.rename(tmp_path, dst_path)
 
     # copy
     was_zip = False
